@@ -106,3 +106,7 @@ CORPUS += [
     Mut('c13-factory-full-loses-its-fill-value', 'torchtree/core/parameter.py', '', "            parameter['full'] = kwargs['full']\n            parameter['tensor'] = kwargs['tensor']\n", "            parameter['full'] = kwargs['full']\n",
         mode='text', expect=[('C13.F', "Parameter::'full'-is-written-together-with-['tensor']")]),
 ]
+CORPUS += [
+    Mut('c13-json-default-differs-from-the-constructor-default', 'torchtree/evolution/tree_likelihood.py', 'TreeLikelihoodModel.from_json', "use_tip_states = data.get('use_tip_states', False)",
+        "use_tip_states = data.get('use_tip_states', True)", expect=[('C13.F', 'TreeLikelihoodModel.from_json::default-of-use_tip_states')]),
+]
